@@ -1,7 +1,7 @@
 (* C10 — decoding untrusted bytes never panics and never yields ill-formed strings. *)
 From Coq Require Import List NArith ZArith Bool.
 Import ListNotations.
-From JB Require Import Constants Bytes Utf8 Num Value Codec JsonText TextProofs DecodeProofs Dispatch MiscProofs.
+From JB Require Import Constants Bytes Utf8 Num Value Codec JsonText TextProofs DecodeProofs Dispatch MiscProofs DecodeMore.
 Open Scope N_scope.
 
 Theorem C10_parse_jsonb_never_panics : forall bs, parse_jsonb bs <> Panic.
@@ -22,3 +22,42 @@ Example C10_text_not_misread :
   parse_jsonb [32; 0; 0; 0; 16; 0; 0; 2; 255; 254] = Err EOther.
 Proof. split; vm_compute; reflexivity. Qed.
 Print Assumptions C10_text_not_misread.
+
+(* "Every proper prefix of a valid encoding is rejected with an error": by the binary decoder, and by from_slice
+   (whose text fallback fails on such a prefix too). *)
+Theorem C10_proper_prefixes_are_rejected : forall v p, wfb v = true -> proper_prefix p (enc v) ->
+  (exists e, parse_jsonb p = Err e) /\ (exists e, from_slice p = Err e).
+Proof. exact (fun v p H P => conj (parse_jsonb_prefix_rejected v p H P) (from_slice_prefix_rejected v p H P)). Qed.
+Print Assumptions C10_proper_prefixes_are_rejected.
+
+(* "Bytes that are valid JSON text ... are decoded by the text fallback to the value the text denotes, never misread as
+   binary": the binary decoder rejects every text the text parser accepts (inputs below TEXT_MISREAD_BOUND = 3.6 GB;
+   "not beginning with a space" is not needed since fix df4d8c4), and from_slice returns the parser's value. *)
+Theorem C10_text_is_never_misread_as_binary : forall t v, bytes_ok t -> lenN t < TEXT_MISREAD_BOUND ->
+  parse_value t = Ok v -> exists e, parse_jsonb t = Err e.
+Proof. exact text_rejected_by_binary. Qed.
+Print Assumptions C10_text_is_never_misread_as_binary.
+
+Theorem C10_text_is_decoded_by_the_fallback : forall t v, bytes_ok t -> lenN t < TEXT_MISREAD_BOUND ->
+  parse_value t = Ok v -> from_slice t = Ok v.
+Proof. exact from_slice_text. Qed.
+Print Assumptions C10_text_is_decoded_by_the_fallback.
+
+Theorem C10_text_not_beginning_with_a_space : forall t v, bytes_ok t -> (forall r, t <> 32 :: r) -> lenN t < 2147483648 ->
+  parse_value t = Ok v -> from_slice t = Ok v.
+Proof. exact from_slice_text_no_space. Qed.
+Print Assumptions C10_text_not_beginning_with_a_space.
+
+Example C10_prefixes_example :
+  wfb sample_doc = true /\ length (enc sample_doc) = 55%nat /\
+  forallb (fun k => match parse_jsonb (firstn k (enc sample_doc)), from_slice (firstn k (enc sample_doc)) with
+                    | Err _, Err _ => true | _, _ => false end) (seq 0 55) = true /\
+  from_slice (enc sample_doc) = Ok sample_doc.
+Proof. exact prefixes_example. Qed.
+Example C10_text_example :
+  from_slice [91; 49; 93] = Ok (VArr [VNum (NUInt 1)]) /\
+  from_slice [92; 110; 91; 49; 93; 32; 32; 32; 32; 32] = Ok (VArr [VNum (NUInt 1)]) /\
+  from_slice [32; 34; 97; 98; 99; 34] = Ok (VStr [97; 98; 99]).
+Proof. repeat split; vm_compute; reflexivity. Qed.
+Print Assumptions C10_prefixes_example.
+Print Assumptions C10_text_example.
